@@ -6,7 +6,7 @@ TRUSTED_BASE = [
     'axioms: none declared by the development; Print Assumptions of every property theorem is re-run in each check (see last entry)',
     'extraction: Require ExtrOcamlBasic only (Extract Inductive bool/option/unit/list/prod/sumbool/sumor, Extract Inlined Constant fst/snd/andb/orb... as that file lists them); Z/positive/N stay Coq data types; OCaml 4.13.1 ocamlfind ocamlopt',
     'hand-written glue: model/driver.ml (token parser/printer), bin/vlib.py (projection, comparison, known-finding filter), harness/*.go (generators, scripted origin, recording Conn, testing/synctest virtual clock)',
-    'modelled, not verified: net/url.Parse/ResolveReference/EscapedPath (re-implemented for the generated grammar), http.ParseTime (IMF-fixdate only), http.CanonicalHeaderKey, strconv.ParseInt/Atoi, Duration.Seconds float rounding, encoding/json of the index (identity on ASCII), httputil.DumpResponse/http.ReadResponse (typed store in the transport model; byte level in Wire.v), slog (no effect), Go scheduler/memory model, kernel file system, AES-GCM',
+    'modelled, not verified: net/url.Parse/ResolveReference/EscapedPath (re-implemented for the generated grammar), http.ParseTime (IMF-fixdate, RFC 850 and asctime in their strict spellings with zone GMT), http.CanonicalHeaderKey, strconv.ParseInt/Atoi, Duration.Seconds float rounding, encoding/json of the index (identity on ASCII), httputil.DumpResponse/http.ReadResponse (typed store in the transport model; byte level in Wire.v), slog (no effect), Go scheduler/memory model, kernel file system, AES-GCM',
 ]
 
 E2E_RULE = ('histories of 3-8 timed requests against a scripted origin, generated from one PCG stream (VERIF_SEED); '
